@@ -372,7 +372,13 @@ def to_vector(c):
     if c is None or c is False:
         return c
     if hasattr(c, vector):
-        return c
+        # already labelled: only make sure it has unit length
+        norm = np.sqrt((c**2).sum(vector))
+        if np.all(norm.values == 1):
+            return c
+        normalized = c / norm
+        normalized.attrs = c.attrs
+        return normalized
     if isinstance(c, dict):
         c = c.copy()
         for key, val in c.items():
